@@ -85,22 +85,40 @@ theorem inv_unsynced : C04.Inv Dedup.RxState.unsynced [] := by
   · intro a h; simp at h
   · intro h; simp [Dedup.RxState.unsynced] at h
 
+/-- every header of the sequence arrives *timely*: on a secure session always; on an unsecured one
+its counter is not more than `Dedup.L = 16` behind the newest counter accepted so far
+(`TwoNode.timelyFor`) at the moment it arrives — the one-node form of the two-node model's
+`late = false` -/
+def timelyRx : Sess → List (RxHdr × Nat) → Prop
+  | _, [] => True
+  | s, (h, now) :: rest =>
+    (s.mode.enc = true ∨ TwoNode.timelyFor s.rx h.ctr = true) ∧ timelyRx (s.postRecv h now).1 rest
+
+theorem timelyRx_secure (hs : List (RxHdr × Nat)) : ∀ (s : Sess), s.mode.enc = true → timelyRx s hs := by
+  induction hs with
+  | nil => intro s _; trivial
+  | cons x rest ih =>
+    intro s henc
+    obtain ⟨h, now⟩ := x
+    exact ⟨Or.inl henc, ih _ (by rw [(postRecv_rx_mode s h now).2.1]; exact henc)⟩
+
 theorem runRx_facts (hs : List (RxHdr × Nat)) : ∀ (s : Sess) (acc del : List Nat),
-    s.mode.enc = true → C04.Inv s.rx acc → acc.Nodup → del.Sublist acc →
+    timelyRx s hs → C04.Inv s.rx acc → acc.Nodup → del.Sublist acc →
     (runRx s acc del hs).2.1.Nodup ∧ (runRx s acc del hs).2.2.Sublist (runRx s acc del hs).2.1 := by
   induction hs with
   | nil => intro s acc del _ _ hn hsub; exact ⟨hn, hsub⟩
   | cons x rest ih =>
-    intro s acc del henc hinv hn hsub
+    intro s acc del htim hinv hn hsub
     obtain ⟨h, now⟩ := x
     simp only [runRx]
     have hpr := postRecv_rx_mode s h now
     have hplain : Dedup.postRecv s.rx h.ctr s.mode.enc false = Dedup.postRecvPlain s.rx h.ctr true := by
-      simp [Dedup.postRecv, henc]
+      have := TwoNode.window_timely s.rx h.ctr s.mode.enc htim.1
+      simpa [Dedup.postRecv, TwoNode.window] using this
     have href := C04.step_refines s.rx acc h.ctr hinv
     rw [← hplain] at href
     apply ih
-    · rw [hpr.2.1]; exact henc
+    · exact htim.2
     · rw [hpr.1]; exact href.2
     · cases hd : (Dedup.postRecv s.rx h.ctr s.mode.enc false).2 with
       | false => simpa using hn
@@ -123,13 +141,29 @@ theorem runRx_facts (hs : List (RxHdr × Nat)) : ∀ (s : Sess) (acc del : List 
         simp only [this, ↓reduceIte]
         exact List.Sublist.cons_cons _ hsub
 
-/-- **At most once**: on a fresh secure session, whatever sequence of headers arrives (any loss,
-duplication, delay, reordering, any exchange ids / flags / acknowledgements), no counter reaches the
+/-- **At most once, both session kinds**: on a session with a fresh receive window, whatever
+sequence of headers arrives timely (`timelyRx`: no condition on a secure session; on an unsecured
+one no copy more than 16 counters behind the newest accepted one), no counter reaches the
 exchange layer twice. -/
-theorem at_most_once (s : Sess) (hs : List (RxHdr × Nat)) (henc : s.mode.enc = true)
+theorem at_most_once_timely (s : Sess) (hs : List (RxHdr × Nat)) (htim : timelyRx s hs)
     (hfresh : s.rx = Dedup.RxState.unsynced) : (runRx s [] [] hs).2.2.Nodup := by
-  have h := runRx_facts hs s [] [] henc (by rw [hfresh]; exact inv_unsynced) List.nodup_nil (List.Sublist.refl _)
+  have h := runRx_facts hs s [] [] htim (by rw [hfresh]; exact inv_unsynced) List.nodup_nil (List.Sublist.refl _)
   exact List.Nodup.sublist h.2 h.1
+
+/-- **At most once, SECURE sessions** (`mode.enc = true`: PASE / CASE): on a fresh secure session,
+whatever sequence of headers arrives (any loss, duplication, delay, reordering, any exchange ids /
+flags / acknowledgements), no counter reaches the exchange layer twice. For unsecured sessions see
+`at_most_once_unsecured` (needs timeliness) and `unsecured_not_at_most_once` (why). -/
+theorem at_most_once (s : Sess) (hs : List (RxHdr × Nat)) (henc : s.mode.enc = true)
+    (hfresh : s.rx = Dedup.RxState.unsynced) : (runRx s [] [] hs).2.2.Nodup :=
+  at_most_once_timely s hs (timelyRx_secure hs s henc) hfresh
+
+/-- **At most once, UNSECURED sessions**: the same for `mode = plain`, for every header sequence in
+which no header arrives more than 16 counters behind the newest counter the window has accepted
+(the hypothesis the two-node model records as `late = false`). -/
+theorem at_most_once_unsecured (s : Sess) (hs : List (RxHdr × Nat)) (_hplain : s.mode = .plain)
+    (htim : timelyRx s hs) (hfresh : s.rx = Dedup.RxState.unsynced) : (runRx s [] [] hs).2.2.Nodup :=
+  at_most_once_timely s hs htim hfresh
 
 /-- non-vacuity: duplicates and a reordered first-timer — 5 accepted, 5 again rejected, 7 accepted,
 6 (overtaken, first time) accepted, 6 again rejected. -/
@@ -137,6 +171,27 @@ example :
     let h (c : Nat) : RxHdr × Nat := ({ ctr := c, exch := 1, initiator := true, ack := none, reliable := true, newOk := true }, 0)
     (runRx ({ uid := 0, ctr := 0, mode := .pase } : Sess) [] [] [h 5, h 5, h 7, h 6, h 6]).2.2 = [6, 7, 5] := by
   decide
+
+/-- the same sequence on an unsecured session is timely, with the same outcome -/
+example :
+    let h (c : Nat) : RxHdr × Nat := ({ ctr := c, exch := 1, initiator := true, ack := none, reliable := true, newOk := true }, 0)
+    let s : Sess := { uid := 0, ctr := 0, mode := .plain }
+    timelyRx s [h 5, h 5, h 7, h 6, h 6] ∧ (runRx s [] [] [h 5, h 5, h 7, h 6, h 6]).2.2 = [6, 7, 5] := by
+  intro h s
+  refine ⟨?_, by decide⟩
+  simp only [timelyRx]
+  decide
+
+/-- **Why the unsecured statement needs the hypothesis**: the unsecured window's restart rule
+(a counter more than 16 behind the newest one is taken for a restarted peer, by specification -
+C04's `PSpec.isRestart`) hands counter 5 to the exchange layer TWICE when its copy arrives after 30
+has been accepted. -/
+theorem unsecured_not_at_most_once :
+    let h (c : Nat) : RxHdr × Nat := ({ ctr := c, exch := 1, initiator := true, ack := none, reliable := true, newOk := true }, 0)
+    (runRx ({ uid := 0, ctr := 0, mode := .plain } : Sess) [] [] [h 5, h 30, h 5]).2.2 = [5, 30, 5] ∧
+    (runRx ({ uid := 0, ctr := 0, mode := .pase } : Sess) [] [] [h 5, h 30, h 5]).2.2 = [30, 5] := by
+  intro h
+  refine ⟨by decide, by decide⟩
 
 /-! ## Give-up -/
 
@@ -210,6 +265,194 @@ theorem gives_up_after_budget (m : Mrp) (c : Nat) (hdrAck sai : Option Nat) (hm 
   have hto := preSend_retrans_timeout (retransmitK hdrAck sai budget m0).1 r' hdrAck sai hr' hnot
   simp only [retransmitK, hr']
   exact ⟨by rw [hto.1], hto.2.1, hto.2.2⟩
+
+/-! ### … on every schedule
+
+`gives_up_after_budget` is one history (nothing received between the attempts). The sender loop
+(`Sender::tx`: `wait_tx` = acknowledgement or back-off timer, then `pre_send` again) runs
+interleaved with whatever arrives on the exchange; `runSend` executes ANY such interleaving on the
+reliability state, collecting the result of every (re)transmission attempt. -/
+
+/-- what happens on the sending exchange while its message waits for the acknowledgement -/
+inductive SEv
+  /-- the back-off elapsed: the sender loop calls `pre_send` for the pending message again -/
+  | retx
+  /-- a message arrives on the exchange: `post_recv` -/
+  | recv (rxCtr : Nat) (ack : Option Nat) (rel : Bool) (now : Nat)
+
+def SEv.isRetx : SEv → Bool
+  | .retx => true
+  | _ => false
+
+/-- the event does not acknowledge counter `c` -/
+def SEv.noAckOf (c : Nat) : SEv → Bool
+  | .retx => true
+  | .recv _ a _ _ => a != some c
+
+/-- run a schedule; the results of the retransmission attempts, oldest first (`none` = sent). Once
+nothing is pending `wait_tx` answers `Done` and the loop makes no further attempt. -/
+def runSend (hdrAck sai : Option Nat) : Mrp → List SEv → Mrp × List (Option Err)
+  | m, [] => (m, [])
+  | m, .retx :: evs =>
+    match m.retrans with
+    | none => runSend hdrAck sai m evs
+    | some r =>
+      let res := m.preSend r.ctr true hdrAck sai
+      let rest := runSend hdrAck sai res.1 evs
+      (rest.1, res.2.2 :: rest.2)
+  | m, .recv c a rel now :: evs => runSend hdrAck sai (m.postRecv c a rel now).1 evs
+
+/-- number of times the back-off elapses in the schedule -/
+def numRetx (evs : List SEv) : Nat := (evs.filter SEv.isRetx).length
+
+theorem runSend_idle (hdrAck sai : Option Nat) (evs : List SEv) : ∀ (m : Mrp), m.retrans = none →
+    (runSend hdrAck sai m evs).2 = [] ∧ (runSend hdrAck sai m evs).1.retrans = none := by
+  induction evs with
+  | nil => intro m hm; exact ⟨rfl, hm⟩
+  | cons e evs ih =>
+    intro m hm
+    cases e with
+    | retx => simp only [runSend, hm]; exact ih m hm
+    | recv c a rel now =>
+      simp only [runSend]
+      apply ih
+      cases hx : (m.postRecv c a rel now).1.retrans with
+      | none => rfl
+      | some r' => have := postRecv_mrp_retrans m c a rel now r' hx; rw [hm] at this; cases this
+
+/-- **Give-up after the budget, on every schedule without a matching acknowledgement.** Let a
+message with counter `r.ctr` be pending with `r.count ≤ budget` attempts made. For EVERY schedule of
+back-off expiries and received messages — stale or foreign acknowledgements, duplicates,
+reliable or unreliable messages, in any order and number — none of which acknowledges `r.ctr`:
+exactly the first `budget − r.count` retransmission attempts are sent, the next one (if the schedule
+contains one) answers `TxTimeout` and nothing after it is attempted; until then the message stays
+pending with its counter (no received message ends it), afterwards nothing is pending. -/
+theorem gives_up_on_every_schedule (hdrAck sai : Option Nat) (evs : List SEv) : ∀ (m : Mrp) (r : Retrans),
+    m.retrans = some r → r.count ≤ budget → (∀ e ∈ evs, e.noAckOf r.ctr = true) →
+    (runSend hdrAck sai m evs).2 =
+      List.replicate (min (numRetx evs) (budget - r.count)) none ++
+        (if budget - r.count < numRetx evs then [some .txTimeout] else []) ∧
+    (if budget - r.count < numRetx evs then (runSend hdrAck sai m evs).1.retrans = none
+     else ∃ r', (runSend hdrAck sai m evs).1.retrans = some r' ∧ r'.ctr = r.ctr ∧ r'.count = r.count + numRetx evs) := by
+  induction evs with
+  | nil =>
+    intro m r hr hb _
+    simp only [runSend, numRetx, List.filter_nil, List.length_nil, Nat.zero_min, List.replicate_zero, List.append_nil,
+      Nat.not_lt_zero, ↓reduceIte, Nat.add_zero]
+    exact ⟨by simp, r, hr, rfl, rfl⟩
+  | cons e evs ih =>
+    intro m r hr hb hno
+    have hno' : ∀ e ∈ evs, e.noAckOf r.ctr = true := fun x hx => hno x (List.mem_cons_of_mem _ hx)
+    cases e with
+    | retx =>
+      have hn : numRetx (SEv.retx :: evs) = numRetx evs + 1 := by
+        unfold numRetx
+        rw [List.filter_cons_of_pos (by rfl)]
+        rfl
+      rw [hn]
+      simp only [runSend, hr]
+      by_cases hlt : r.count < Consts.mrpMaxTransmissions
+      · rw [preSend_retrans_ok m r hdrAck sai hr hlt]
+        simp only
+        have := ih { retrans := some { r with count := r.count + 1 }, ack := m.ack.map (fun a => { a with acked := true }),
+                     recvAt := none } { r with count := r.count + 1 } rfl (by unfold budget; simp only; omega) hno'
+        simp only at this
+        obtain ⟨h1, h2⟩ := this
+        have hb1 : budget - r.count = (budget - (r.count + 1)) + 1 := by unfold budget; omega
+        refine ⟨?_, ?_⟩
+        · rw [h1, hb1, Nat.succ_min_succ, List.replicate_succ]
+          simp only [List.cons_append, Nat.add_lt_add_iff_right]
+        · rw [hb1]
+          simp only [Nat.add_lt_add_iff_right]
+          split
+          · rename_i hc; simp only [hc, ↓reduceIte] at h2; exact h2
+          · rename_i hc
+            simp only [hc, ↓reduceIte] at h2
+            obtain ⟨r', hr', hc', hcnt⟩ := h2
+            exact ⟨r', hr', hc', by rw [hcnt]; omega⟩
+      · have hz : budget - r.count = 0 := by unfold budget at hb ⊢; omega
+        obtain ⟨hto, hnone, _⟩ := preSend_retrans_timeout m r hdrAck sai hr hlt
+        have hidle := runSend_idle hdrAck sai evs _ hnone
+        rw [hz]
+        simp only [Nat.min_zero, List.replicate_zero, List.nil_append, Nat.zero_lt_succ, ↓reduceIte]
+        exact ⟨by rw [hto, hidle.1], hidle.2⟩
+    | recv c a rel now =>
+      have hn : numRetx (SEv.recv c a rel now :: evs) = numRetx evs := by
+        unfold numRetx
+        rw [List.filter_cons_of_neg (by simp [SEv.isRetx])]
+      rw [hn]
+      simp only [runSend]
+      have hp := postRecv_pending m r c a rel now hr
+      simp only at hp
+      have ha : a ≠ some r.ctr := by
+        have := hno _ (List.mem_cons_self ..)
+        simpa [SEv.noAckOf] using this
+      have hstill : (m.postRecv c a rel now).1.retrans = some r := by
+        cases a with
+        | none => exact (hp.2.2 rfl).2.1
+        | some av =>
+          have : av ≠ r.ctr := fun h => ha (by rw [h])
+          rw [hp.2.1 av rfl this]
+          exact hr
+      exact ih _ r hstill hb hno'
+
+/-- **From the first transmission: at most `1 + budget` transmissions, then `TxTimeout`** — for every
+schedule that contains more than `budget` back-off expiries and no acknowledgement of the message. -/
+theorem gives_up_after_budget_on_every_schedule (m : Mrp) (c : Nat) (hdrAck sai : Option Nat) (evs : List SEv)
+    (hm : m.retrans = none) (hno : ∀ e ∈ evs, e.noAckOf c = true) (hmany : budget < numRetx evs) :
+    (m.preSend c true hdrAck sai).2.2 = none ∧
+    (runSend hdrAck sai (m.preSend c true hdrAck sai).1 evs).2 = List.replicate budget none ++ [some .txTimeout] ∧
+    (runSend hdrAck sai (m.preSend c true hdrAck sai).1 evs).1.retrans = none := by
+  have h0 : (m.preSend c true hdrAck sai).1.retrans = some (Retrans.new sai c) := by
+    unfold Mrp.preSend; simp [hm]
+  have hok : (m.preSend c true hdrAck sai).2.2 = none := by
+    unfold Mrp.preSend; simp [hm]
+  have := gives_up_on_every_schedule hdrAck sai evs _ (Retrans.new sai c) h0 (by simp [Retrans.new]) hno
+  have hz : budget - (Retrans.new sai c).count = budget := by simp [Retrans.new]
+  rw [hz] at this
+  simp only [hmany, ↓reduceIte] at this
+  refine ⟨hok, ?_, this.2⟩
+  rw [this.1, Nat.min_eq_right (Nat.le_of_lt hmany)]
+
+/-- **The pending message ends only by the matching acknowledgement or by `TxTimeout`** — every
+schedule: if nothing in it acknowledges the counter and the message is no longer pending at its end,
+one of the attempts answered `TxTimeout` (the call reported failure, not success). -/
+theorem stops_only_by_ack_or_timeout (hdrAck sai : Option Nat) (evs : List SEv) (m : Mrp) (r : Retrans)
+    (hr : m.retrans = some r) (hb : r.count ≤ budget) (hno : ∀ e ∈ evs, e.noAckOf r.ctr = true)
+    (hstop : (runSend hdrAck sai m evs).1.retrans = none) : some Err.txTimeout ∈ (runSend hdrAck sai m evs).2 := by
+  obtain ⟨h1, h2⟩ := gives_up_on_every_schedule hdrAck sai evs m r hr hb hno
+  by_cases hc : budget - r.count < numRetx evs
+  · rw [h1]; simp [hc]
+  · simp only [hc, ↓reduceIte] at h2
+    obtain ⟨r', hr', _⟩ := h2
+    rw [hstop] at hr'
+    cases hr'
+
+/-- **One acknowledgement suffices, at any moment before the give-up** — after every schedule
+without a matching acknowledgement that has not used up the budget, a message acknowledging the
+counter ends the retransmission and is itself processed (no error): `wait_tx` answers `Done`. -/
+theorem one_ack_suffices_on_every_schedule (hdrAck sai : Option Nat) (evs : List SEv) (m : Mrp) (r : Retrans)
+    (hr : m.retrans = some r) (hb : r.count ≤ budget) (hno : ∀ e ∈ evs, e.noAckOf r.ctr = true)
+    (hfew : numRetx evs ≤ budget - r.count) (rxCtr : Nat) (rel : Bool) (now : Nat) :
+    ((runSend hdrAck sai m evs).1.postRecv rxCtr (some r.ctr) rel now).2 = none ∧
+    ((runSend hdrAck sai m evs).1.postRecv rxCtr (some r.ctr) rel now).1.retrans = none := by
+  obtain ⟨_, h2⟩ := gives_up_on_every_schedule hdrAck sai evs m r hr hb hno
+  have hc : ¬ budget - r.count < numRetx evs := by omega
+  simp only [hc, ↓reduceIte] at h2
+  obtain ⟨r', hr', hc', _⟩ := h2
+  have := postRecv_pending _ r' rxCtr (some r.ctr) rel now hr'
+  simp only at this
+  exact this.1 (by rw [hc'])
+
+/-- non-vacuity: stale acknowledgements, a duplicate and an unreliable message between seven back-off
+expiries: five retransmissions are sent, the sixth attempt is `TxTimeout`, the seventh is not made -/
+example :
+    let m0 : Mrp := (({} : Mrp).preSend 9 true none none).1
+    let evs : List SEv := [.retx, .recv 4 (some 8) true 0, .retx, .retx, .recv 5 none false 0, .retx, .recv 4 (some 8) true 0,
+      .retx, .retx, .retx]
+    (∀ e ∈ evs, e.noAckOf 9 = true) ∧ (runSend none none m0 evs).2 = List.replicate 5 none ++ [some .txTimeout] := by
+  intro m0 evs
+  refine ⟨by decide, by decide⟩
 
 /-- the give-up is an error of `Session::pre_send` (never `Ok`), and the error is `TxTimeout` -/
 theorem giveup_is_timeout_not_success (s : Sess) (i : Nat) (e : Exch) (r : Retrans) (ha sai : Option Nat)
@@ -372,6 +615,84 @@ theorem backoff_actual_ge_spec (base n j : Nat) (hn : n ≤ 5) (hb : 200 ≤ bas
       Consts.mrpBackoffBaseNum, Consts.mrpBackoffBaseDen, Consts.mrpJitterFixed, Consts.mrpJitterNum,
       Consts.mrpJitterDen, scaleLoop] <;>
     simp <;> omega
+
+/-! ### The Matter specification's back-off, written independently of the code
+
+Matter Core Specification, Message Reliability Protocol, retransmission timing:
+`mrpBackoffTime = i · MRP_BACKOFF_BASE^max(0, n − MRP_BACKOFF_THRESHOLD) · (1.0 + random(0,1) · MRP_BACKOFF_JITTER)`
+with `i = base interval · MRP_BACKOFF_MARGIN`, `MRP_BACKOFF_MARGIN = 1.1`, `MRP_BACKOFF_BASE = 1.6`,
+`MRP_BACKOFF_JITTER = 0.25`, `MRP_BACKOFF_THRESHOLD = 1`, `n` = number of send attempts so far.
+`specBackoff` is this formula over the rationals with the specification's literal constants; the
+code's constants (re-extracted from `mrp.rs` on every run) are proved to be these
+(`code_constants_are_the_spec_constants`), the code's integer ladder is proved to lie inside the
+specification's range `[rand = 0, rand = 1]` for the parameter range in use
+(`backoff_within_spec_range`). `backoff_lower_bound` / `backoff_actual_ge_spec` above remain as the
+refinement part (what the integer arithmetic loses against the real-valued ladder). -/
+
+/-- the specification's formula (ms), `rand ∈ [0, 1]`; `n - 1` on `Nat` is `max(0, n − 1)` -/
+def specBackoff (baseMs n : Nat) (rand : Rat) : Rat :=
+  ((baseMs : Rat) * (11 / 10)) * (16 / 10) ^ (n - 1) * (1 + rand * (25 / 100))
+
+/-- the constants of `mrp.rs` are the specification's: margin 1.1, base 1.6, jitter 0.25, threshold 1;
+the jitter byte is scaled by 255 -/
+theorem code_constants_are_the_spec_constants :
+    Consts.mrpMarginNum * 10 = 11 * Consts.mrpMarginDen ∧ Consts.mrpBackoffBaseNum * 10 = 16 * Consts.mrpBackoffBaseDen ∧
+    Consts.mrpJitterNum * 100 = 25 * Consts.mrpJitterDen ∧ Consts.mrpBackoffThreshold = 1 ∧ Consts.mrpJitterDiv = 255 := by
+  decide
+
+/-- the integer ladder never exceeds the real-valued one with the largest jitter — every base, every jitter byte -/
+theorem backoff_le_spec_max_nat (base n j : Nat) (hn : n ≤ 5) (hj : j ≤ 255) :
+    backoffMs base n j * (10 ^ (n - 1 + 1) * 4) ≤ base * 11 * 16 ^ (n - 1) * 5 := by
+  have hmono := backoff_monotone_jitter base n j 255 hj
+  suffices h : backoffMs base n 255 * (10 ^ (n - 1 + 1) * 4) ≤ base * 11 * 16 ^ (n - 1) * 5 from
+    Nat.le_trans (Nat.mul_le_mul_right _ hmono) h
+  have hcases : n = 0 ∨ n = 1 ∨ n = 2 ∨ n = 3 ∨ n = 4 ∨ n = 5 := by omega
+  rcases hcases with h | h | h | h | h | h <;> subst h <;>
+    simp only [backoffMs, backoffBase, Consts.mrpBackoffThreshold, Consts.mrpMarginNum, Consts.mrpMarginDen,
+      Consts.mrpBackoffBaseNum, Consts.mrpBackoffBaseDen, Consts.mrpJitterNum,
+      Consts.mrpJitterDen, scaleLoop] <;>
+    simp <;> omega
+
+theorem spec_lo (b x k : Nat) (hk : k ≤ 4) (h : b * 11 * 16 ^ k ≤ x * 10 ^ (k + 1)) :
+    ((b : Rat) * (11 / 10)) * (16 / 10) ^ k * (1 + 0 * (25 / 100)) ≤ (x : Rat) := by
+  have h' : ((b * 11 * 16 ^ k : Nat) : Rat) ≤ ((x * 10 ^ (k + 1) : Nat) : Rat) := by exact_mod_cast h
+  have hc : k = 0 ∨ k = 1 ∨ k = 2 ∨ k = 3 ∨ k = 4 := by omega
+  rcases hc with rfl | rfl | rfl | rfl | rfl <;> (push_cast at h'; grind)
+
+theorem spec_hi (b x k : Nat) (hk : k ≤ 4) (h : x * (10 ^ (k + 1) * 4) ≤ b * 11 * 16 ^ k * 5) :
+    (x : Rat) ≤ ((b : Rat) * (11 / 10)) * (16 / 10) ^ k * (1 + 1 * (25 / 100)) := by
+  have h' : ((x * (10 ^ (k + 1) * 4) : Nat) : Rat) ≤ ((b * 11 * 16 ^ k * 5 : Nat) : Rat) := by exact_mod_cast h
+  have hc : k = 0 ∨ k = 1 ∨ k = 2 ∨ k = 3 ∨ k = 4 := by omega
+  rcases hc with rfl | rfl | rfl | rfl | rfl <;> (push_cast at h'; grind)
+
+/-- **The code's back-off lies in the specification's range.** For the parameter range in use — base
+interval at least 200 ms (the default `MRP_BASE_RETRY_INTERVAL_MS` is 300 ms; the peer-advertised
+session active interval replaces it), attempts `n ≤ 5 = MRP_MAX_TRANSMISSIONS`, jitter byte between
+the one the sender loop uses (`Consts.mrpJitterFixed = 100`) and 255 — the delay the code waits before
+retransmission `n + 1` is at least the specification's `mrpBackoffTime` with `random = 0` (never
+earlier than the protocol's back-off) and at most the one with `random = 1`. -/
+theorem backoff_within_spec_range (base n j : Nat) (hn : n ≤ 5) (hb : 200 ≤ base) (hj : Consts.mrpJitterFixed ≤ j)
+    (hj2 : j ≤ 255) :
+    specBackoff base n 0 ≤ (backoffMs base n j : Rat) ∧ (backoffMs base n j : Rat) ≤ specBackoff base n 1 := by
+  have hlo := backoff_actual_ge_spec base n j hn hb hj
+  have hhi := backoff_le_spec_max_nat base n j hn hj2
+  unfold specBackoff
+  exact ⟨spec_lo base _ (n - 1) (by omega) hlo, spec_hi base _ (n - 1) (by omega) hhi⟩
+
+/-- the upper half needs no restriction on base and jitter (rounding only shortens the ladder) -/
+theorem backoff_le_spec_max (base n j : Nat) (hn : n ≤ 5) (hj : j ≤ 255) :
+    (backoffMs base n j : Rat) ≤ specBackoff base n 1 := by
+  unfold specBackoff
+  exact spec_hi base _ (n - 1) (by omega) (backoff_le_spec_max_nat base n j hn hj)
+
+/-- the specification's values for the default interval (random = 0): 330, 330, 528, 844.8, 1351.68,
+2162.688 ms, and 2703.36 ms for the last step with random = 1; the code waits 362, 362, 579, 926,
+1482, 2371 ms (next example): inside the range -/
+example : specBackoff 300 0 0 = 330 ∧ specBackoff 300 1 0 = 330 ∧ specBackoff 300 2 0 = 528 ∧
+    specBackoff 300 3 0 = 4224 / 5 ∧ specBackoff 300 4 0 = 33792 / 25 ∧ specBackoff 300 5 0 = 270336 / 125 ∧
+    specBackoff 300 5 1 = 337920 / 125 := by
+  simp only [specBackoff]
+  grind
 
 /-- the default ladder: 362, 362, 579, 926, 1482, 2371 ms (base 300, the code's jitter byte) -/
 example : (List.range 6).map (fun n => backoffMs 300 n Consts.mrpJitterFixed) = [362, 362, 579, 926, 1482, 2371] := by
